@@ -150,9 +150,25 @@ func behaviourCheck(c *Ctx, n int, mk func(r *rand.Rand, i int) (*cfg.Config, []
 	for i := 0; i < n; i++ {
 		r := rand.New(rand.NewSource(c.Seed*1000003 + int64(i)))
 		conf, ops := mk(r, i)
-		u := &probe.Unit{ID: fmt.Sprintf("c%05d", i), Cfg: conf, Files: []probe.File{{Name: "gontainer.yaml", Content: conf.YAML()}}, Ops: ops}
+		u := &probe.Unit{ID: idOf(i), Cfg: conf, Files: []probe.File{{Name: "gontainer.yaml", Content: conf.YAML()}}, Ops: ops}
 		units = append(units, u)
 	}
+	return behaviourUnits(c, lab, units, nontrivial, skipTainted)
+}
+
+func idOf(i int) string { return fmt.Sprintf("c%05d", i) }
+
+func hasTaggedArg(conf *cfg.Config) bool {
+	for _, r := range ref.References(conf) {
+		if r.Kind == "tag" {
+			return true
+		}
+	}
+	return false
+}
+
+// behaviourUnits runs prepared units and judges them against the reference container.
+func behaviourUnits(c *Ctx, lab *probe.Lab, units []*probe.Unit, nontrivial func(conf *cfg.Config) bool, skipTainted bool) error {
 	if err := runUnits(c, lab, units, false); err != nil {
 		return err
 	}
@@ -183,9 +199,9 @@ func behaviourCheck(c *Ctx, n int, mk func(r *rand.Rand, i int) (*cfg.Config, []
 				c.Add("values_described", 1)
 			}
 		}
-		c.Eval(u.Files[0].Content, judged >= 4 && nontrivial(u.Cfg))
+		c.Eval(filesKey(u), judged >= 4 && nontrivial(u.Cfg))
 		if len(c.Samples) < 3 && judged > 6 {
-			c.Sample(map[string]any{"config": u.Files[0].Content, "ops": len(u.Ops), "ops_judged": judged})
+			c.Sample(map[string]any{"files": u.Files, "ops": len(u.Ops), "ops_judged": judged})
 		}
 		for _, m := range mm {
 			files := unitFiles(u)
